@@ -975,3 +975,140 @@ impl Handler<TransferDataRequest> for ConfigActor {
         }
     }
 }
+
+/// Verification hooks (only compiled with `--cfg rnacos_verif`): read-only dumps of the
+/// listener / subscriber / sequence / cache bookkeeping of a running ConfigActor, a trigger
+/// for the unmodified `ConfigListener::timeout`, the unmodified `SimpleSequence::next_state`
+/// call of the `ConfigAsyncCmd::Add` handler, and the `set_conn_manage` call of `inject`.
+#[cfg(rnacos_verif)]
+pub mod verif {
+    use super::*;
+    use crate::grpc::bistream_manage::BiStreamManage;
+
+    #[derive(Message)]
+    #[rtype(result = "anyhow::Result<VerifConfigResult>")]
+    pub enum VerifConfigCmd {
+        DumpListener,
+        DumpSubscriber,
+        DumpSequence,
+        DumpCache,
+        DumpIndex,
+        /// calls `self.listener.timeout()` exactly as the 500 ms `hb` timer does
+        ListenerTimeout,
+        /// calls `self.sequence.next_state()` exactly as the `ConfigAsyncCmd::Add` handler does
+        NextState,
+        /// calls `self.subscriber.set_conn_manage(..)` exactly as `inject` does
+        SetConnManage(Addr<BiStreamManage>),
+    }
+
+    pub struct VerifListenerDump {
+        pub version: u64,
+        pub listener: Vec<(ConfigKey, Vec<u64>)>,
+        pub time_listener: Vec<(i64, Vec<u64>)>,
+        pub sender_versions: Vec<u64>,
+    }
+
+    pub struct VerifCacheItem {
+        pub key: ConfigKey,
+        pub md5: Arc<String>,
+        pub tmp: bool,
+        pub history_ids: Vec<u64>,
+    }
+
+    #[allow(clippy::type_complexity)]
+    pub enum VerifConfigResult {
+        None,
+        Listener(VerifListenerDump),
+        Subscriber(
+            Vec<(ConfigKey, Vec<Arc<String>>)>,
+            Vec<(Arc<String>, Vec<ConfigKey>)>,
+        ),
+        /// (last_id, cache_size, batch_size, get_end_id())
+        Sequence(u64, u64, u64, u64),
+        Cache(Vec<VerifCacheItem>),
+        /// (size field, keys in iteration order)
+        Index(usize, Vec<ConfigKey>),
+        /// result of next_state: (history_id, history_table_id)
+        NextState(Option<(u64, Option<u64>)>),
+    }
+
+    impl Handler<VerifConfigCmd> for ConfigActor {
+        type Result = anyhow::Result<VerifConfigResult>;
+
+        fn handle(&mut self, msg: VerifConfigCmd, _ctx: &mut Context<Self>) -> Self::Result {
+            match msg {
+                VerifConfigCmd::DumpListener => {
+                    let l = &self.listener;
+                    Ok(VerifConfigResult::Listener(VerifListenerDump {
+                        version: l.version,
+                        listener: l
+                            .listener
+                            .iter()
+                            .map(|(k, v)| (k.clone(), v.clone()))
+                            .collect(),
+                        time_listener: l
+                            .time_listener
+                            .iter()
+                            .map(|(k, v)| (*k, v.iter().map(|e| e.version).collect()))
+                            .collect(),
+                        sender_versions: l.sender_map.keys().cloned().collect(),
+                    }))
+                }
+                VerifConfigCmd::DumpSubscriber => {
+                    let (a, b) = self.subscriber.verif_dump();
+                    Ok(VerifConfigResult::Subscriber(a, b))
+                }
+                VerifConfigCmd::DumpSequence => {
+                    let (last_id, cache_size, batch_size) = self.sequence.verif_state();
+                    Ok(VerifConfigResult::Sequence(
+                        last_id,
+                        cache_size,
+                        batch_size,
+                        self.sequence.get_end_id(),
+                    ))
+                }
+                VerifConfigCmd::DumpCache => Ok(VerifConfigResult::Cache(
+                    self.cache
+                        .iter()
+                        .map(|(k, v)| VerifCacheItem {
+                            key: k.clone(),
+                            md5: v.md5.clone(),
+                            tmp: v.tmp,
+                            history_ids: v.histories.iter().map(|h| h.id).collect(),
+                        })
+                        .collect(),
+                )),
+                VerifConfigCmd::DumpIndex => {
+                    let mut keys = vec![];
+                    for (t, ci) in &self.tenant_index.tenant_group {
+                        for (g, set) in &ci.group_data {
+                            for d in set {
+                                keys.push(ConfigKey::new_by_arc(d.clone(), g.clone(), t.clone()));
+                            }
+                        }
+                    }
+                    Ok(VerifConfigResult::Index(self.tenant_index.size, keys))
+                }
+                VerifConfigCmd::ListenerTimeout => {
+                    self.listener.timeout();
+                    Ok(VerifConfigResult::None)
+                }
+                VerifConfigCmd::NextState => {
+                    Ok(VerifConfigResult::NextState(self.sequence.next_state().ok()))
+                }
+                VerifConfigCmd::SetConnManage(addr) => {
+                    self.subscriber.set_conn_manage(addr);
+                    Ok(VerifConfigResult::None)
+                }
+            }
+        }
+    }
+}
+
+#[cfg(rnacos_verif)]
+impl ConfigKey {
+    /// verification hook (read-only): (data_id, group, tenant)
+    pub fn verif_parts(&self) -> (Arc<String>, Arc<String>, Arc<String>) {
+        (self.data_id.clone(), self.group.clone(), self.tenant.clone())
+    }
+}
